@@ -13,7 +13,9 @@ META = {
              "that contains everything loadable at the last completed fsync; append_after_recovery: with an open that cuts the torn tail, "
              "writes after the recovery are loadable; second_crash_recovers (clause Resumes): a chronicler that resumes on a recovered file, "
              "runs any acts and crashes again anywhere loads a prefix of recovered++written that contains everything recovered before and "
-             "everything synced since; run_inv / run_started tie the executable writer model to the session logs the theorems are about. "
+             "everything synced since; zero_tail_of_repaired (clause ZeroTail: a zero-filled tail behind whole blocks — file size on disk, "
+             "data not — changes nothing for the load and is cut by the open; witness zero_tail_wipes_swamp; torn block + zeros by "
+             "correspondence on zero-extension crash images); run_inv / run_started tie the executable writer model to the session logs the theorems are about. "
              "For the code as it is: torn_block_load_error / not_recovers_of_torn_error (a torn payload is a load error, the swamp comes "
              "back empty), append_after_torn_tail_strands (loadEntries_strands: nothing behind a torn block is ever loaded), "
              "torn_create_bricks (a partial file header makes every later Write fail), C02_partial (crash points that leave at most a "
@@ -34,6 +36,10 @@ FINDINGS = {
                                           "behind the fragment and are never loaded (or make the file unloadable)",
     "C02-torn-create-bricks-swamp": "a crash while the new file's header/name is being written leaves a file that openExistingFile cannot "
                                     "open and ensureWriter never recreates: every later Write is dropped",
+    "C02-zero-filled-tail-wipes-swamp": "a zero-filled tail (file size on disk, data not) is taken for a corrupt block: Load aborts and the "
+                                        "swamp comes back empty although everything in front of the zeros was synced",
+    "C02-open-destroys-blocks-behind-midfile-damage": "the torn-tail cut of the open fires on a damaged block header in the middle of the "
+                                                      "file and destroys every intact block behind it",
     "C02-crash-loses-synced-data": "a crash image loads to a state that misses fsynced records",
     "C02-ack-not-durable": "records acknowledged by a write tick are not on disk",
 }
@@ -48,6 +54,7 @@ def spec_scan(ops, impl):
     written, at_op, syncs = [], {}, []
     acked, pending_ack, nops = [], None, 0   # (first op index after an acknowledged Sync/Close, entries written by then)
     cut = False
+    zapped, size_now = None, None
     for i, op in enumerate(ops):
         if i >= len(impl):
             break
@@ -60,6 +67,7 @@ def spec_scan(ops, impl):
             written, at_op, syncs = [], {}, []
             acked, pending_ack, nops = [], None, 0
             cut = False
+            zapped, size_now = None, None
             blk_n, flushed = {}, []     # entries per block id; (op index of a completed payload write, entries on disk by then)
         elif f[0] == "blk":
             blk_n[f[1]] = len(f[4].split(";")) if f[4] not in ("", "-") else 0
@@ -83,9 +91,18 @@ def spec_scan(ops, impl):
                     break
             else:
                 bad.append((i, "the load after a torn tail returns %s, which is not the replay of a prefix of what was written" % got, "recover"))
+        elif f[0] == "act" and f[1] == "size":
+            got = rep.split(" ")[1] if " " in rep else "-"
+            if zapped is not None and got.isdigit() and int(got) < zapped:
+                bad.append((i, "a block header in the middle of the file was damaged (intact blocks behind it); after the next "
+                               "open the file has %s bytes, it had %d: the blocks behind the damage were destroyed" % (got, zapped), "destroy"))
+            if got.isdigit():
+                size_now = int(got)
         elif f[0] in ("log", "plant"):
             if f[0] == "plant" and f[2] == "trunc":
                 cut = True
+            if f[0] == "plant" and f[2] == "write" and f[7] == "zero":
+                cut, zapped = True, size_now
             idx = int(f[1])
             nops = idx + 1
             at_op[idx] = len(written)
@@ -123,8 +140,9 @@ def spec_scan(ops, impl):
             if not ok:
                 bad.append((i, "crash image %s loads %s (reader: %s); %d entries were fsynced or acknowledged by a completed Sync/Close before the crash point"
                             % (" ".join(f[1:]), r.get("C"), r.get("L"), lo), "recover"))
-        elif f[0] == "tick":
-            want = ",".join("%d=%d" % (k, 100 + k) for k in range(1, int(f[1]) + 1))
+        elif f[0] in ("tick", "tick0", "tickdel"):
+            top = int(f[1]) - (1 if f[0] == "tickdel" else 0)
+            want = ",".join("%d=%d" % (k, 100 + k) for k in range(1, top + 1)) or "-"
             if rep.split("\t")[0] != "tick " + want:
                 bad.append((i, "after a write tick returned, %s of %s saved records are on disk" % (rep, f[1]), "ack"))
     return bad
@@ -191,7 +209,7 @@ def run(ctx):
               "is loaded through v2.FileReader.LoadIndex and chronicler.Load, then a record is appended (Write+Sync+Close) and the file "
               "reloaded; tick lines drive a real swamp through one write tick; non-trivial = img/log/act/tick line; distinct = distinct op lines"),
         samples=[{"op": S.strip_hex(c.ops[i]), "impl": c.impl[i][:160]} for i in range(0, min(len(c.ops), 60), 9) if i < len(c.impl)],
-        evaluations=len(c.ops), distinct_nontrivial=len(set(o for o in c.ops if o.split(" ")[0] in ("img", "log", "act", "tick"))),
+        evaluations=len(c.ops), distinct_nontrivial=len(set(o for o in c.ops if o.split(" ")[0] in ("img", "log", "act", "tick", "tick0", "tickdel"))),
         extra_cov={"correspondence": {"domain": "C02", "cases": len(c.cases), "op_lines": len(c.ops),
                                       "mismatching_lines": len(c.mismatch), "crash_images": imgs, "torn_write_images": torn,
                                       "reader_outcome_of_images": outcomes, "op_histogram": c.op_hist,
